@@ -290,7 +290,9 @@ def diagram_sequences(acc):
     open(good, "w").write("@startuml\n[a] --> [b]\n@enduml\n")
     open(tagless, "w").write("[a] --> [b]\n")
     open(noend, "w").write("@startuml\n[a] --> [b]\n")
-    vocab = [("from_file", Path(good)), ("from_file", Path(tagless)), ("from_file", Path(noend)), ("with_base_module", "r"), ("base_module_included_in_module_names", None)]
+    endfirst = os.path.join(d, "endfirst.puml")
+    open(endfirst, "w").write("' remember to close the block with @enduml\n@startuml\n[a] --> [b]\n")
+    vocab = [("from_file", Path(good)), ("from_file", Path(tagless)), ("from_file", Path(noend)), ("from_file", Path(endfirst)), ("with_base_module", "r"), ("base_module_included_in_module_names", None)]
     for n in range(0, 4):
         for seq in itertools.product(vocab, repeat=n):
             for mode in (True, False):
